@@ -30,19 +30,24 @@ class CompProc(Process):
 
 
 class CntStep(Step):
-    defaults = {'sname': 's1'}
+    """adds 1 to its own counter; `up` names the step (same compartment) whose
+    effect it must see: it declares that counter too and logs what it saw"""
+    defaults = {'sname': 's1', 'up': None}
 
     def ports_schema(self):
-        return {'c': {self.parameters['sname']:
-                      {'_default': 0, '_divider': 'zero', '_emit': True}}}
+        names = [self.parameters['sname']] + ([self.parameters['up']] if self.parameters['up'] else [])
+        return {'c': {n: {'_default': 0, '_divider': 'zero', '_emit': True} for n in names}}
 
     def next_update(self, timestep, states):
-        LOG.append(('step', id(self), timestep))
+        up = self.parameters['up']
+        LOG.append(('step', id(self), timestep, states['c'][up] if up else None))
         return {'c': {self.parameters['sname']: 1}}
 
 
-TPL_STEPS = {'T0': [], 'T1': [], 'T2': ['s1', 's2'], 'T3': ['d'], 'T4': ['d', 's1']}
-TPL_FLOW = {'s1': [], 's2': [('s1',)]}     # 'd' has no flow entry: legacy deriver
+TPL_STEPS = {'T0': [], 'T1': [], 'T2': ['s1', 's2'], 'T3': ['d'], 'T4': ['d', 's1'],
+             'T5': ['d', 'e']}
+TPL_FLOW = {'s1': [], 's2': [('s1',)]}     # 'd', 'e' have no flow entry: legacy derivers
+UPSTREAM = {('T2', 's2'): 's1', ('T4', 's1'): 'd', ('T5', 'e'): 'd'}
 
 
 def template(tpl, x0, parallel=False):
@@ -52,7 +57,7 @@ def template(tpl, x0, parallel=False):
         procs['p'] = CompProc(cfg)
         topo['p'] = {'v': ('v',)}
     for s in TPL_STEPS[tpl]:
-        steps[s] = CntStep({'sname': s})
+        steps[s] = CntStep({'sname': s, 'up': UPSTREAM.get((tpl, s))})
         topo[s] = {'c': ('c',)}
         if s in TPL_FLOW:
             flow[s] = list(TPL_FLOW[s])
@@ -95,14 +100,21 @@ def structural_update(op, tree_tpl, parallel=False):
         g = template(op['tpl'], op['x0'], parallel)
         g['key'] = op['k']
         return {'agents': {'_generate': [g], '_delete': [op['k2']]}}
+    if o == 'addleaf':
+        return {'leaves': {'_add': [{'key': op['k'], 'state': op['v']}]}}
+    if o == 'delleaf':
+        return {'leaves': {'_delete': [op['k']]}}
     raise ValueError(o)
 
 
 GLOB = {'*': {'v': {'x': dict(X_SCHEMA)}}}
+LEAVES = {'*': {'_default': 5, '_emit': True}}
 
 
 class Director(Process):
+    """issues the operations whose mode is 'proc' (the others are the step's)"""
     defaults = {'script': []}
+    MODE = 'proc'
 
     def __init__(self, parameters=None):
         super().__init__(parameters)
@@ -111,14 +123,37 @@ class Director(Process):
         self.par = False
 
     def ports_schema(self):
+        return {'agents': copy.deepcopy(GLOB), 'pool': copy.deepcopy(GLOB),
+                'leaves': copy.deepcopy(LEAVES)}
+
+    def next_update(self, timestep, states):
+        LOG.append((self.MODE + 'director', copy.deepcopy(states)))
+        script = self.parameters['script']
+        op = script[self.i] if 0 <= self.i < len(script) else {'op': 'none'}
+        self.i += 1
+        if op.get('mode', 'proc') != self.MODE:
+            return {}
+        return structural_update(op, self.tree_tpl, self.par)
+
+
+class StepDirector(Director, Step):
+    """the same director as a flow step (no dependencies; its path sorts last)"""
+    MODE = 'step'
+
+    def __init__(self, parameters=None):
+        Director.__init__(self, parameters)
+        self.i = -1        # the constructor's step phase comes before the first tick
+
+
+class Watcher(Step):
+    """a step in the layer after the step director: what it sees must be the
+    hierarchy as the director's operation left it"""
+    def ports_schema(self):
         return {'agents': copy.deepcopy(GLOB), 'pool': copy.deepcopy(GLOB)}
 
     def next_update(self, timestep, states):
-        LOG.append(('director', copy.deepcopy(states)))
-        script = self.parameters['script']
-        op = script[self.i] if self.i < len(script) else {'op': 'none'}
-        self.i += 1
-        return structural_update(op, self.tree_tpl, self.par)
+        LOG.append(('watcher', copy.deepcopy(states)))
+        return {}
 
 
 class Observer(Process):
@@ -141,7 +176,7 @@ class Observer(Process):
 def tpl_of(node):
     names = set(node.inner.keys())
     has_p = 'p' in names
-    steps = sorted(n for n in ('s1', 's2', 'd') if n in names)
+    steps = sorted(n for n in ('s1', 's2', 'd', 'e') if n in names)
     if not has_p and not steps:
         return 'T0'
     for t, ss in TPL_STEPS.items():
@@ -222,9 +257,15 @@ def project(eng, prev_ids):
     g = eng._step_graph
     deps = []
     for n in g._graph.nodes:
+        if n[0] not in ('agents', 'pool'):
+            continue
         deps.append([list(n), sorted(list(p) for p in g._graph.predecessors(n))])
+    leaves = {}
+    lnode = eng.state.inner.get('leaves')
+    if lnode is not None:
+        leaves = {k: (n.value if isinstance(n.value, int) else -999) for k, n in lnode.inner.items()}
     obs = {
-        'tree': tree, 'origin': origin,
+        'tree': tree, 'origin': origin, 'leaves': leaves,
         'eprocs': comp_paths([list(p) for p in eng.process_paths]),
         'esteps': comp_paths([list(p) for p in eng._step_paths]),
         'eseq': [list(p) for p in g._sequential_steps],
@@ -261,14 +302,20 @@ def run_history(ops, initial=(), parallel=False, via_composite=False):
     LOG = []
     director = Director({'script': list(ops)})
     director.par = parallel
+    sdirector = StepDirector({'script': list(ops)})
+    sdirector.par = parallel
     watch = any(b == 'agents' and k == 'a' for b, k, _t, _x in initial)
     processes = {'director': director, 'observer': Observer({'watch': watch})}
-    topology = {'director': {'agents': ('agents',), 'pool': ('pool',)},
-                'observer': {'ag': ('agents',), 'g': ('glob',), 'out': ('outs',)}}
+    dtopo = {'agents': ('agents',), 'pool': ('pool',), 'leaves': ('leaves',)}
+    topology = {'director': dict(dtopo),
+                'observer': {'ag': ('agents',), 'g': ('glob',), 'out': ('outs',)},
+                'zdirector': dict(dtopo),
+                'zwatcher': {'agents': ('agents',), 'pool': ('pool',)}}
     if watch:
         topology['observer']['w'] = ('agents', 'a', 'v')
-    steps, flow = {}, {}
-    state = {'agents': {}, 'pool': {}}
+    steps = {'zdirector': sdirector, 'zwatcher': Watcher()}
+    flow = {'zdirector': [], 'zwatcher': [('zdirector',)]}
+    state = {'agents': {}, 'pool': {}, 'leaves': {}}
     tree_tpl = {}
     for b, k, tpl, x0 in initial:
         t = template(tpl, x0, parallel)
@@ -280,6 +327,7 @@ def run_history(ops, initial=(), parallel=False, via_composite=False):
         state[b][k] = {'v': {'x': x0}}
         tree_tpl[(b, k)] = tpl
     director.tree_tpl = tree_tpl
+    sdirector.tree_tpl = tree_tpl
     eng = Engine(processes=processes, topology=topology, steps=steps, flow=flow,
                  initial_state=state, display_info=False, emitter='null')
     recs = [{'ev': 'init', 'initial': [[b, k, tpl, x0] for b, k, tpl, x0 in initial]}]
@@ -297,20 +345,34 @@ def run_history(ops, initial=(), parallel=False, via_composite=False):
         after = id_paths(eng)
         rec = {'ev': 'tick', 'op': op, 'exc': exc is not None, 'exc_text': exc or ''}
         invoked = {}
-        dview = oview = None
+        seen = []
+        dview = oview = zview = None
         for ev in LOG:
             if ev[0] == 'proc':
                 p = before.get(ev[1], ['zombie', str(ev[1])])
                 invoked[tuple(p)] = invoked.get(tuple(p), 0) + 1
             elif ev[0] == 'step':
                 p = after.get(ev[1]) or before.get(ev[1], ['zombie', str(ev[1])])
+                if op.get('mode') == 'step' and ev[1] in before and ev[1] in after \
+                        and before[ev[1]] != after[ev[1]]:
+                    # a step that ran and was then moved: report it where it ran
+                    p = before[ev[1]]
                 invoked[tuple(p)] = invoked.get(tuple(p), 0) + 1
                 if ev[2] != 0:
                     invoked[('step_ts_nonzero',)] = 1
-            elif ev[0] == 'director':
+                if ev[3] is not None:
+                    seen.append([list(p), ev[3]])
+            elif ev[0] == 'procdirector':
                 dview = ev[1]
             elif ev[0] == 'observer':
                 oview = ev[1]
+            elif ev[0] == 'watcher':
+                zview = ev[1]
+        rec['seen'] = sorted(seen)
+        rec['mode'] = op.get('mode', 'proc')
+        none0 = {'__none__': -1}
+        rec['zview'] = {'agents': none0, 'pool': none0} if zview is None else \
+            {'agents': view_x(zview.get('agents', none0)), 'pool': view_x(zview.get('pool', none0))}
         rec['invoked'] = sorted([list(p), n] for p, n in invoked.items())
         none = {'__none__': -1}
         rec['dview'] = {'agents': none, 'pool': none} if dview is None else \
@@ -345,7 +407,14 @@ NAMES = ['a', 'b', 'c']
 def applicable_ops(model, tpls=('T1', 'T2', 'T3'), names=NAMES, max_comps=3):
     """model: {'agents': {name: tpl}, 'pool': {...}} -> list of abstract ops"""
     ag, po = model['agents'], model['pool']
+    lv = model.get('leaves', {})
     ops = [{'op': 'none'}]
+    for k in names[:2]:
+        if k in lv:
+            ops.append({'op': 'delleaf', 'k': k})
+        else:
+            ops.append({'op': 'addleaf', 'k': k, 'v': 0})
+            ops.append({'op': 'addleaf', 'k': k, 'v': 7})
     n = len(ag) + len(po)
     for k in names:
         if k not in ag:
@@ -372,8 +441,13 @@ def applicable_ops(model, tpls=('T1', 'T2', 'T3'), names=NAMES, max_comps=3):
 
 
 def apply_model(model, op):
-    m = {'agents': dict(model['agents']), 'pool': dict(model['pool'])}
+    m = {'agents': dict(model['agents']), 'pool': dict(model['pool']),
+         'leaves': dict(model.get('leaves', {}))}
     o = op['op']
+    if o == 'addleaf':
+        m['leaves'][op['k']] = op['v']
+    if o == 'delleaf':
+        del m['leaves'][op['k']]
     if o in ('add', 'adddel'):
         m['agents'][op['k']] = 'T0'
     if o in ('gen', 'gendel'):
@@ -393,18 +467,20 @@ def apply_model(model, op):
     return m
 
 
-def all_histories(depth, initial_model, **kw):
-    """every sequence of applicable operations of the given length"""
+def all_histories(depth, initial_model, modes=('proc', 'step'), **kw):
+    """every sequence of applicable operations of the given length, each issued
+    by the director process or by the director step"""
     def rec(model, d):
         if d == 0:
             yield []
             return
         for op in applicable_ops(model, **kw):
             if op['op'] == 'addex':
-                yield [op]
+                yield [dict(op, mode='proc')]
                 continue
-            for rest in rec(apply_model(model, op), d - 1):
-                yield [op] + rest
+            for mode in (modes if op['op'] != 'none' else ('proc',)):
+                for rest in rec(apply_model(model, op), d - 1):
+                    yield [dict(op, mode=mode)] + rest
     return rec(initial_model, depth)
 
 
@@ -412,7 +488,8 @@ def random_history(rng, length, initial_model, **kw):
     model, ops = initial_model, []
     for _ in range(length):
         cand = [o for o in applicable_ops(model, **kw) if o['op'] != 'addex' or rng.random() < 0.1]
-        op = rng.choice(cand)
+        op = dict(rng.choice(cand))
+        op['mode'] = 'proc' if op['op'] in ('addex', 'none') else rng.choice(['proc', 'step'])
         ops.append(op)
         if op['op'] == 'addex':
             break
